@@ -93,4 +93,109 @@ def absDesc (d : MProp) : PD :=
     enumerable := topt d.mode.e
     configurable := topt d.mode.c }
 
+/-! ### [[DefineOwnProperty]] on one existing property -/
+
+/-- the `exists` branch of objectDefineOwnProperty (object_class.go:337-441) on one property:
+    none = reject, some none = return true without writing, some (some p) = writeProperty p -/
+def defineProp (prop d : MProp) : Option (Option MProp) :=
+  if d.isEmpty then some none else
+  let configurable := prop.configurable
+  if !configurable && d.configurable then none
+  else if !configurable && (d.enumerateSet && d.enumerable != prop.enumerable) then none
+  else
+    match defineSwitch prop d configurable with
+    | none => none
+    | some dvalue =>
+      let value1 : PV := match dvalue with
+        | .nil => prop.value
+        | .gs g s => .gs (normSlot g) (normSlot s)
+        | v => v
+      let d' : MProp := ⟨dvalue, d.mode⟩
+      let mode1 := Mode.ofNat (mergeMode d.mode.toNat prop.mode.toNat d'.isDataDescriptor)
+      some (some ⟨value1, mode1⟩)
+
+/-- §8.12.9 steps 5-13 on one existing property, same result convention -/
+def sDefineProp (cur : SProp) (d : PD) : Option (Option SProp) :=
+  if allAbsent d then some none
+  else if subsumed d cur then some none
+  else if !cur.configurable && d.configurable == some true then none
+  else if !cur.configurable && (match d.enumerable with | some e => e != cur.enumerable | none => false) then none
+  else
+    match validate cur d with
+    | none => none
+    | some b => some (some (applyFields b d))
+
+/-- the new property written when the name does not exist yet (object_class.go:324-335) -/
+def createProp (d : MProp) : MProp :=
+  ⟨match d.value with
+    | .gs g s => .gs (normSlot g) (normSlot s)
+    | .nil => .val 0
+    | v => v, d.mode⟩
+
+/-- §8.12.9 step 4 -/
+def sCreateProp (d : PD) : SProp :=
+  if Spec.isGenericDescriptor d || Spec.isDataDescriptor d then
+    .data (d.value.getD 0) (d.writable.getD false) (d.enumerable.getD false) (d.configurable.getD false)
+  else
+    .acc (d.get.getD none) (d.set.getD none) (d.enumerable.getD false) (d.configurable.getD false)
+
+theorem defineOwn_eq (o : MObj) (n : Name) (d : MProp) :
+    defineOwn o n d =
+      match alookup n o.props with
+      | none => if !o.ext then none else some { o with props := aupsert n (createProp d) o.props }
+      | some prop => (defineProp prop d).map (fun r => match r with
+          | none => o
+          | some p => { o with props := aupsert n p o.props }) := by
+  unfold defineOwn defineProp createProp
+  cases alookup n o.props with
+  | none => rfl
+  | some prop =>
+    simp only []
+    split
+    · rfl
+    · split
+      · rfl
+      · split
+        · rfl
+        · cases defineSwitch prop d prop.configurable <;> rfl
+
+theorem sDefineOwn_eq (o : SObj) (n : Name) (d : PD) :
+    Spec.defineOwn o n d =
+      match alookup n o.props with
+      | none => if !o.ext then none else some { o with props := aupsert n (sCreateProp d) o.props }
+      | some cur => (sDefineProp cur d).map (fun r => match r with
+          | none => o
+          | some p => { o with props := aupsert n p o.props }) := by
+  unfold Spec.defineOwn sDefineProp sCreateProp
+  cases alookup n o.props with
+  | none => rfl
+  | some cur =>
+    simp only []
+    cases h1 : allAbsent d <;> cases h2 : subsumed d cur <;>
+      cases h3 : (!cur.configurable && d.configurable == some true) <;>
+      cases h4 : (!cur.configurable && (match d.enumerable with | some e => e != cur.enumerable | none => false)) <;>
+      cases h5 : validate cur d <;> simp
+
+/-- the two single-property deviation regions (same predicates as Driver.devGenericAt / devAccToDataAt) -/
+def devG (prop d : MProp) : Bool :=
+  (match prop.value with | .val _ => true | _ => false) && prop.writable &&
+    d.isGenericDescriptor && !d.isEmpty && (defineProp prop d).isSome
+
+def devA2D (prop d : MProp) : Bool :=
+  (match prop.value with | .gs _ _ => true | _ => false) &&
+    d.isDataDescriptor && (match d.value with | .nil => true | _ => false) && (defineProp prop d).isSome
+
+/-- well-formed stored property: a value or a normalised getter/setter pair whose write trit is unset -/
+def WFProp (p : MProp) : Prop :=
+  match p.value with
+  | .nil => False
+  | .val _ => True
+  | .gs g s => g ≠ .nilObj ∧ s ≠ .nilObj ∧ p.mode.w = .unset
+
+/-- well-formed descriptor (everything toPropertyDescriptor can return) -/
+def WFDesc (d : MProp) : Prop :=
+  match d.value with
+  | .gs g s => d.mode.w = .unset ∧ (g ≠ .nil ∨ s ≠ .nil)
+  | _ => True
+
 end OttoVerif.C07.Lem
